@@ -62,19 +62,22 @@ type c09Relay struct {
 	step  int64
 	calls int
 	env   *c09Env
+	// byParent: the bid depends on the parent hash asked for (value + first byte of the hash; defect per parent)
+	byParent     bool
+	parentDefect map[byte]string
 }
 
 type c09Env struct {
-	relays  []*c09Relay
-	cfgKind string // builder configuration for builder X
-	res     *blockauctioneer.Results
-	err     error
-	t1      int64
-	done    bool
-	served  *builderspec.VersionedSignedBuilderBid
-	servedE error
+	relays   []*c09Relay
+	cfgKind  string // builder configuration for builder X
+	res      *blockauctioneer.Results
+	err      error
+	t0, t1   int64 // start of the auction call (absolute) and its duration
+	done     bool
+	served   *builderspec.VersionedSignedBuilderBid
+	servedE  error
 	servedOK bool
-	given   [][]c09Given // per relay: bids handed to vouch (with instant)
+	given    [][]c09Given // per relay: bids handed to vouch (with instant)
 }
 
 type c09Given struct {
@@ -179,9 +182,19 @@ func (r *c09Relay) eligible() bool {
 	return r.defect == "none" || r.defect == "nokey-badsig" || r.defect == "badsig-first-high"
 }
 
-func (r *c09Relay) BuilderBid(ctx context.Context, _ *builderapi.BuilderBidOpts) (*builderapi.Response[*builderspec.VersionedSignedBuilderBid], error) {
+func (r *c09Relay) BuilderBid(ctx context.Context, opts *builderapi.BuilderBidOpts) (*builderapi.Response[*builderspec.VersionedSignedBuilderBid], error) {
 	call := r.calls
 	r.calls++
+	if r.byParent {
+		tag := opts.ParentHash[0]
+		defect := r.parentDefect[tag]
+		g := c09Given{at: mc.Now(), eligible: defect == "none", value: r.value + int64(tag), bldr: r.bldr, hdr: r.hdr}
+		if defect == "belowmin" {
+			g.value = c09Min - 1
+		}
+		r.env.given[r.idx] = append(r.env.given[r.idx], g)
+		return &builderapi.Response[*builderspec.VersionedSignedBuilderBid]{Data: r.bidAs(defect, r.value+int64(tag)), Metadata: map[string]any{}}, nil
+	}
 	switch lat := c09Lats[r.lat]; lat {
 	case -1:
 		d := ctx.Done()
@@ -366,6 +379,7 @@ func c09Units(tier string) []hx.Unit {
 						mc.Sleep(int64(time.Duration(c09Slot)*12*time.Second) - mc.Now())
 						svc := st.mk()
 						t0 := mc.Now()
+						e.t0 = t0
 						e.res, e.err = svc.BuilderBid(context.Background(), c09Slot, phase0.Hash32{9}, phase0.BLSPubKey{1}, c09ProposerConfig(e), c09BuilderConfigs(ck))
 						e.t1 = mc.Now() - t0
 						e.done = true
@@ -401,18 +415,9 @@ func c09Units(tier string) []hx.Unit {
 				defer cancel()
 				v1 := newAccount("W", "v1", 1)
 				accts := &accountsTable{byIndex: map[phase0.ValidatorIndex]*hAccount{1: v1}}
-				doc := `{"version":2,"fee_recipient":"` + feeA + `","min_value":"0.000000000000000005","relays":{"` + e.relays[0].Address() + `":{},"` + e.relays[1].Address() + `":{}}}`
-				md := &c09Majordomo{doc: doc}
-				svc, err := standardblockrelay.New(ctx,
-					standardblockrelay.WithLogLevel(zerolog.Disabled), standardblockrelay.WithMonitor(&nullmetrics.Service{}), standardblockrelay.WithMajordomo(md),
-					standardblockrelay.WithScheduler(&nopScheduler{}), standardblockrelay.WithListenAddress("127.0.0.1:18550"),
-					standardblockrelay.WithChainTime(newChainTime(0, 12*time.Second, 32)), standardblockrelay.WithConfigURL("file:///config.json"),
-					standardblockrelay.WithFallbackFeeRecipient(bellatrix.ExecutionAddress{0xff}), standardblockrelay.WithFallbackGasLimit(30000000),
-					standardblockrelay.WithAccountsProvider(accts), standardblockrelay.WithValidatorsProvider(c12Validators{}), standardblockrelay.WithValidatingAccountsProvider(&accountsTable{byIndex: map[phase0.ValidatorIndex]*hAccount{}}),
-					standardblockrelay.WithValidatorRegistrationSigner(c12Signer{}), standardblockrelay.WithReleaseVersion("test"),
-					standardblockrelay.WithBuilderBidProvider(st.mk()), standardblockrelay.WithBuilderConfigs(c09BuilderConfigs(ck)))
-				must(err)
+				svc := c09NewBlockRelay(ctx, e, &st, ck, accts)
 				t0 := mc.Now()
+				e.t0 = t0
 				e.res, e.err = svc.AuctionBlock(ctx, c09Slot, phase0.Hash32{9}, v1.pubkey())
 				e.t1 = mc.Now() - t0
 				e.served, e.servedE = svc.BuilderBid(ctx, c09Slot, phase0.Hash32{9}, v1.pubkey())
@@ -423,7 +428,130 @@ func c09Units(tier string) []hx.Unit {
 			units = append(units, u)
 		}
 	}
+	// the same slot and proposer under two parents (a reorg): what is served for a parent is the result of an
+	// auction held for that parent, whatever was auctioned or served for the other one before
+	{
+		e := &c09Env{}
+		st := c09Strats()[0]
+		type step struct {
+			op     string
+			parent byte
+			val    int64 // value of the bid served (0: none)
+			err    error
+		}
+		var steps []step
+		nops := 3
+		if tier == "thorough" {
+			nops = 4
+		}
+		u := hx.Unit{Name: "C09/blockrelay-cache/reorg", Cfg: mc.Config{Fixed: true, Horizon: int64(400 * time.Second)}}
+		u.Body = func() {
+			c09Init()
+			*e = c09Env{cfgKind: "none", given: make([][]c09Given, 1)}
+			steps = nil
+			util.VerifResetBuilderClients()
+			r := &c09Relay{idx: 0, env: e, value: 10, bldr: 'Y', hdr: 1, byParent: true, parentDefect: map[byte]string{}}
+			for _, p := range []byte{1, 2} {
+				r.parentDefect[p] = []string{"none", "belowmin"}[mc.Choose(2)]
+			}
+			e.relays = append(e.relays, r)
+			util.VerifSetBuilderClient(r.Address(), r)
+			mc.Sleep(int64(time.Duration(c09Slot)*12*time.Second) - mc.Now())
+			ctx, cancel := mcontext.WithCancel(context.Background())
+			defer cancel()
+			v1 := newAccount("W", "v1", 1)
+			accts := &accountsTable{byIndex: map[phase0.ValidatorIndex]*hAccount{1: v1}}
+			svc := c09NewBlockRelay(ctx, e, &st, "none", accts)
+			for i := 0; i < nops; i++ {
+				c := mc.Choose(4)
+				s := step{op: []string{"auction", "serve"}[c/2], parent: byte(1 + c%2)}
+				if s.op == "auction" {
+					_, s.err = svc.AuctionBlock(ctx, c09Slot, phase0.Hash32{s.parent}, v1.pubkey())
+				} else {
+					var b *builderspec.VersionedSignedBuilderBid
+					b, s.err = svc.BuilderBid(ctx, c09Slot, phase0.Hash32{s.parent}, v1.pubkey())
+					if b != nil {
+						if val, err := b.Value(); err == nil {
+							s.val = val.ToBig().Int64()
+						}
+					}
+				}
+				steps = append(steps, s)
+			}
+			e.done = true
+		}
+		u.Check = func(r *mc.Result) mc.Verdict {
+			var d []string
+			for _, s := range steps {
+				x := fmt.Sprintf("%s(parent %d)", s.op, s.parent)
+				if s.op == "serve" {
+					x += fmt.Sprintf("=%d", s.val)
+				}
+				if s.err != nil {
+					x += " error: " + s.err.Error()
+				}
+				d = append(d, x)
+			}
+			desc := ""
+			if len(e.relays) > 0 {
+				desc = fmt.Sprintf("relay bids per parent: 1:%s 2:%s; ", e.relays[0].parentDefect[1], e.relays[0].parentDefect[2])
+			}
+			v := mc.Verdict{Outcome: "reorg " + strings.Join(d, " "), Nontrivial: true, Sample: "slot and proposer under two parents: " + desc + strings.Join(d, ", ")}
+			switch {
+			case r.Panic != "":
+				v.Violation, v.Key = v.Sample+": panic: "+firstLine(r.Panic), "C09/blockrelay/panic"
+			case !e.done:
+				v.Violation, v.Key = v.Sample+": a call never returned", "C09/blockrelay/never-returned"
+			}
+			for _, s := range steps {
+				if v.Violation != "" || s.op != "serve" {
+					continue
+				}
+				want := int64(0)
+				if e.relays[0].parentDefect[s.parent] == "none" {
+					want = 10 + int64(s.parent)
+				}
+				switch {
+				case want == 0 && s.val != 0:
+					v.Violation, v.Key = fmt.Sprintf("%s: a bid of value %d was served for parent %d although no eligible bid exists for that parent", v.Sample, s.val, s.parent), "C09/blockrelay/bid-served-without-winner"
+				case want != 0 && s.val == 0:
+					v.Violation, v.Key = fmt.Sprintf("%s: nothing was served for parent %d although the auction for that parent has a winner", v.Sample, s.parent), "C09/blockrelay/winning-bid-not-served"
+				case want != s.val:
+					v.Violation, v.Key = fmt.Sprintf("%s: the bid served for parent %d (value %d) is not the winner of the auction for that parent (value %d)", v.Sample, s.parent, s.val, want), "C09/blockrelay/served-bid-differs"
+				}
+			}
+			return v
+		}
+		units = append(units, u)
+	}
 	return units
+}
+
+// c09NewBlockRelay builds the real block relay service over the environment's relays and the given strategy.
+// The validating accounts are the table's, so that the service fetches the execution configuration (it
+// does not when nothing validates).
+func c09NewBlockRelay(ctx context.Context, e *c09Env, st *c09Strat, ck string, accts *accountsTable) *standardblockrelay.Service {
+	var rel []string
+	for _, r := range e.relays {
+		rel = append(rel, `"`+r.Address()+`":{}`)
+	}
+	doc := `{"version":2,"fee_recipient":"` + feeA + `","min_value":"0.000000000000000005","relays":{` + strings.Join(rel, ",") + `}}`
+	md := &c09Majordomo{doc: doc}
+	svc, err := standardblockrelay.New(ctx,
+		standardblockrelay.WithLogLevel(zerolog.Disabled), standardblockrelay.WithMonitor(&nullmetrics.Service{}), standardblockrelay.WithMajordomo(md),
+		standardblockrelay.WithScheduler(&nopScheduler{}), standardblockrelay.WithListenAddress("127.0.0.1:18550"),
+		standardblockrelay.WithChainTime(newChainTime(0, 12*time.Second, 32)), standardblockrelay.WithConfigURL("file:///config.json"),
+		standardblockrelay.WithFallbackFeeRecipient(bellatrix.ExecutionAddress{0xff}), standardblockrelay.WithFallbackGasLimit(30000000),
+		standardblockrelay.WithAccountsProvider(accts), standardblockrelay.WithValidatorsProvider(c12Validators{}), standardblockrelay.WithValidatingAccountsProvider(accts),
+		standardblockrelay.WithValidatorRegistrationSigner(c12Signer{}), standardblockrelay.WithReleaseVersion("test"),
+		standardblockrelay.WithBuilderBidProvider(st.mk()), standardblockrelay.WithBuilderConfigs(c09BuilderConfigs(ck)))
+	must(err)
+	// let the registration round started by the constructor finish
+	mc.Sleep(int64(time.Second))
+	if pc, err := svc.ProposerConfig(ctx, accts.byIndex[1], accts.byIndex[1].pubkey()); err != nil || len(pc.Relays) != len(e.relays) {
+		panic(fmt.Sprintf("harness: the block relay did not take up the execution configuration: %v", err))
+	}
+	return svc
 }
 
 type c09Majordomo struct{ doc string }
@@ -469,8 +597,8 @@ func c09Check(st *c09Strat, e *c09Env, r *mc.Result, cache bool) mc.Verdict {
 		return fail("returned-after-deadline", "returned after the strategy's timeout / deadline")
 	}
 	// eligible bids by arrival; the decision instant is the observed return
-	best := int64(0)         // best eligible score among bids handed over strictly before the return
-	bestLE := int64(0)       // ... at or before the return
+	best := int64(0)   // best eligible score among bids handed over strictly before the return
+	bestLE := int64(0) // ... at or before the return
 	for i := range e.given {
 		for _, g := range e.given[i] {
 			if !g.eligible {
@@ -480,7 +608,7 @@ func c09Check(st *c09Strat, e *c09Env, r *mc.Result, cache bool) mc.Verdict {
 			if sc <= 0 {
 				continue
 			}
-			at := g.at - int64(time.Duration(c09Slot)*12*time.Second)
+			at := g.at - e.t0
 			if at < e.t1 && sc > best {
 				best = sc
 			}
@@ -584,7 +712,7 @@ func init() {
 		Title: "The relay auction selects the best eligible bid and only eligible bids",
 		Rule: "for the single-shot (best) and the repeated-until-deadline strategy and n = 1..2 (thorough 3) scripted relays: every assignment per relay of one eligibility defect or none (below relay minimum, zero value, zero fee recipient, wrong timestamp, bad signature with known key, bad signature with unknown key, error, empty response) x value x builder x payload header x latency (0, <soft, between, never) (x per-attempt value step for the deadline strategy) x 6 builder configurations (offset +/-, factor 0/50/200), with real BLS signatures; explored with deviation-bounded schedules; plus the block relay's AuctionBlock -> BuilderBid cache path; " +
 			"quick restricts latencies/values/builder configurations, thorough uses the full alphabet; " +
-			"oracle: winner = arg-max eligible score among bids handed over before the observed return, listed providers offered the winning payload and include the winner's relay, no eligible bid => no winner and nothing served; non-trivial = more than one relay or a defective single relay; distinct = distinct (strategy, winning score, return second)",
+			"oracle: winner = arg-max eligible score among bids handed over before the observed return, listed providers offered the winning payload and include the winner's relay, no eligible bid => no winner and nothing served; the block relay's bid cache under a reorg: every sequence of 3 (thorough 4) operations over {auction, serve} x {parent 1, parent 2} for one slot and proposer, the relay's bid depending on the parent: what is served for a parent is the winner of an auction for that parent; non-trivial = more than one relay or a defective single relay; distinct = distinct (strategy, winning score, return second)",
 		Assumptions: []string{
 			"relays honour request cancellation",
 			"score = (value + offset) * factor / 100 with integer division, as documented for builder configurations",
